@@ -11,6 +11,11 @@ pub trait FormatterConfiguration {
     fn cursors(&self) -> &[u32];
 }
 
+/// A single file is formatted on the calling thread, several files on the threads of the pool.
+/// Those get the (usual) stack size of a main thread, instead of the much smaller default for
+/// spawned threads, so that a file that can be formatted on its own can be formatted in a batch.
+const WORKER_STACK_SIZE: usize = 8 * 1024 * 1024;
+
 pub struct FormattingOrchestrator;
 impl FormattingOrchestrator {
     pub fn run(
@@ -18,6 +23,11 @@ impl FormattingOrchestrator {
         config: impl FormatterConfiguration,
         err_handler: impl ErrHandler,
     ) {
+        // This fails only if the pool has been set up already (by an embedding application).
+        let _ = rayon::ThreadPoolBuilder::new()
+            .stack_size(WORKER_STACK_SIZE)
+            .build_global();
+
         match config.mode() {
             FormatMode::Check if config.is_stdin() => file_formatter.check_stdin(err_handler),
             FormatMode::Stdout if config.is_stdin() => {
